@@ -2623,7 +2623,10 @@ class VM:
         # Create 'arguments' object (stored after params in locals)
         # The 'arguments' slot is at index len(compiled.params)
         arguments_slot = len(compiled.params)
-        if arguments_slot < compiled.num_locals:
+        if (
+            arguments_slot < compiled.num_locals
+            and compiled.locals[arguments_slot] == "arguments"
+        ):  # arrow functions have no arguments object of their own
             arguments_obj = JSArray()
             arguments_obj._elements = list(args)
             locals_list[arguments_slot] = arguments_obj
